@@ -67,3 +67,16 @@ def mk(x=None, **kw):
     """returns a FRESH mutable object per call"""
     LOG.append(('mk', (repr(x),), ()))
     return list(x) if x is not None else []
+
+
+def sub(**kw):
+    """a sub-config factory: runs an independent build while the outer evaluation is in progress"""
+    LOG.append(('sub', (), ()))
+    from awesomeyaml.config import Config
+    inner = Config.build("{r: !call:engine.targets.leaf {x: [1]}, s: !xref r}", raw_yaml=True)
+    return {'r': inner['r'], 'same': inner['s'] is inner['r']}
+
+
+def leaf(x=None):
+    LOG.append(('leaf', (), ()))
+    return list(x)
